@@ -4,7 +4,7 @@
 usage: add_known.py <prop> <classifier-module-function> ; the classifier maps signature -> root cause text or None (skip)."""
 import json, sys, importlib.util
 prop = sys.argv[1]
-ev = json.load(open('/verif/evidence/%s.json' % prop))
+ev = json.load(open(sys.argv[2] if len(sys.argv) > 2 else '/verif/evidence/%s.json' % prop))
 kf = json.load(open('/verif/known_findings.json'))
 have = {(f['property'], f['signature']) for f in kf['findings']}
 spec = importlib.util.spec_from_file_location('cls', '/verif/tools/classify_%s.py' % prop)
